@@ -8,4 +8,5 @@ def main : IO Unit := runDriver fun
   | "station" :: args => Registrar.handleStation args
   | "uni" :: args => Registrar.handleUni args
   | "choose" :: args => Registrar.handleChoose args
+  | "cidr" :: args => OverrideCidr.handle args
   | _ => none
